@@ -201,11 +201,15 @@ fn operations(byte_len: usize) -> Vec<(String, Box<dyn Fn(&str) -> V>)> {
     ops
 }
 
+const FAR: usize = 70_000;
+
 fn script_for(byte_len: usize, repr: usize, ops: &[(String, Box<dyn Fn(&str) -> V>)]) -> String {
     let mut src = String::from("t = |f|\n  try\n    f()\n  catch _\n    ERR\n");
     match repr {
         0 => src.push_str("s = s0\n"),
         1 => src.push_str(&format!("s = ('x' + s0 + 'y')[1..{}]\n", 1 + byte_len)),
+        // a slice whose bounds lie beyond 64 KiB of its backing buffer (KString's wide slice variant)
+        3 => src.push_str(&format!("s = (PAD + s0 + 'é')[{}..{}]\n", FAR, FAR + byte_len)),
         _ => src.push_str(&format!("s = ('x€' + s0 + 'é')[1..{}][3..{}]\n", 4 + byte_len, 3 + byte_len)),
     }
     src.push_str("r = []\n");
@@ -230,6 +234,7 @@ pub fn exhaustive(max_symbols: usize, shard: usize, n_shards: usize) -> Value {
         ..Default::default()
     });
     koto.prelude().insert("ERR", KValue::Str(ERR.into()));
+    koto.prelude().insert("PAD", KValue::Str("p".repeat(FAR).as_str().into()));
     let mut chunks: HashMap<(usize, usize), (koto::Ptr<Chunk>, usize)> = HashMap::new();
     let mut op_cache: HashMap<usize, Vec<(String, Box<dyn Fn(&str) -> V>)>> = HashMap::new();
     let mut evaluations: u64 = 0;
@@ -257,7 +262,7 @@ pub fn exhaustive(max_symbols: usize, shard: usize, n_shards: usize) -> Value {
                     op_cache.insert(byte_len, operations(byte_len));
                 }
                 let ops = &op_cache[&byte_len];
-                for repr in 0..3usize {
+                for repr in 0..4usize {
                     if !chunks.contains_key(&(byte_len, repr)) {
                         let src = script_for(byte_len, repr, ops);
                         match koto.compile(src.as_str()) {
